@@ -131,3 +131,10 @@ def rules(t, *a, **kw):
     out = _rules_C18_w6(t, *a, **kw)
     out.append(W6.client_refresh_total(t, "C18.o"))
     return out
+
+_rules_C18_w7b = rules
+def rules(t, *a, **kw):
+    import rules.wave7 as W7
+    out = _rules_C18_w7b(t, *a, **kw)
+    out.append(W7.challenge_sequence_use(t, "C18.p"))
+    return out
